@@ -46,6 +46,7 @@ fn full_universe() -> Vec<AQuad> {
         ATerm::lang("v", "en"),
         ATerm::typed("[1]", &format!("{RDF}JSON")),
         ATerm::typed("v", &format!("{I18N}en_ltr")),
+        ATerm::typed("v", &format!("{I18N}en-GB_rtl")),
         ATerm::lit("ltr"),
         ATerm::typed("1", &format!("{XSD}integer")),
         ATerm::typed("true", &format!("{XSD}boolean")),
@@ -78,6 +79,9 @@ fn list_universe() -> Vec<AQuad> {
             }
         }
     }
+    // graphs named by the blank nodes that can also be list cells
+    v.push(([ex("s"), ex("p"), ex("o")], Some(ATerm::b("l"))));
+    v.push(([ex("s"), ex("p"), ex("o")], Some(ATerm::b("a"))));
     v
 }
 /// quads JSON-LD cannot express
@@ -148,7 +152,14 @@ fn list_structures() -> Vec<Vec<AQuad>> {
                                 if refs == 2 {
                                     q.push(([ex("s2"), ex("q"), head.clone()], g(head_graph == 0)));
                                 }
+                                // ... and the same structure with a graph named by the head / by the last cell
+                                let mut q2 = q.clone();
+                                q2.push(([ex("x"), ex("y"), ex("z")], Some(head.clone())));
+                                let mut q3 = q.clone();
+                                q3.push(([ex("x"), ex("y"), ex("z")], Some(last.clone())));
                                 out.push(q);
+                                out.push(q2);
+                                out.push(q3);
                             }
                         }
                     }
